@@ -4,8 +4,10 @@ import (
 	"fmt"
 	"go/token"
 	"go/types"
+	"regexp"
 	"sort"
 	"strings"
+	"sync"
 
 	"golang.org/x/tools/go/ssa"
 )
@@ -149,13 +151,16 @@ type VC struct {
 	ContractErrors []string
 	rootFrame *Frame
 	inQuant int
+	factSyms map[int][]string
+	mu       sync.Mutex
+	defs     map[string]string
 }
 
 func NewVC(e *Engine, root *ssa.Function) *VC {
 	return &VC{E: e, Root: root, RootKey: FuncKey(root), declSet: map[string]string{}, classSort: map[string]string{},
 		strIDs: map[string]T{}, subSeen: map[string]bool{}, funSeen: map[string]bool{}, ghostTypes: map[string]types.Type{},
 		UsedAssumed: map[string]bool{}, Unmodelled: map[string]bool{}, Inlined: map[string]bool{}, Havocked: map[string]bool{}, UsedLemmas: map[string]bool{},
-		nameCount: map[string]int{}}
+		nameCount: map[string]int{}, defs: map[string]string{}}
 }
 
 func (vc *VC) declare(name, sort string) {
@@ -191,6 +196,9 @@ func (vc *VC) define(hint, sort string, t T) T {
 	}
 	n := vc.fresh(hint, sort)
 	vc.facts = append(vc.facts, "(assert (= "+n+" "+t+"))")
+	if strings.HasPrefix(t, "(store ") {
+		vc.defs[n] = t
+	}
 	return n
 }
 
@@ -225,8 +233,94 @@ func (vc *VC) oblige(kind, name string, tags []string, pc, goal T, pos token.Pos
 	return o
 }
 
+var symRe = regexp.MustCompile(`[A-Za-z_][A-Za-z0-9_.$!]*`)
+
+func isHubSymbol(s string) bool {
+	if strings.HasPrefix(s, "alive") || strings.HasPrefix(s, "gv_") {
+		return true
+	}
+	if len(s) > 2 && s[0] == 'H' && s[1] >= '0' && s[1] <= '9' {
+		return true
+	}
+	switch s {
+	case "assert", "select", "store", "and", "or", "not", "ite", "forall", "exists", "true", "false", "bv0", "BitVec", "Array", "as", "const", "let", "pattern", "distinct",
+		"bvadd", "bvsub", "bvmul", "bvand", "bvor", "bvxor", "bvnot", "bvneg", "bvult", "bvule", "bvugt", "bvuge", "bvslt", "bvsle", "bvsgt", "bvsge", "bvshl", "bvlshr", "bvashr", "bvudiv", "bvsdiv", "bvurem", "bvsrem", "concat", "extract", "zero_extend", "sign_extend", "_", "r", "k", "Bool":
+		return true
+	}
+	if strings.HasPrefix(s, "bv") {
+		return true
+	}
+	return false
+}
+
+func (vc *VC) factSymbols(i int) []string {
+	if vc.factSyms == nil {
+		vc.factSyms = map[int][]string{}
+	}
+	if s, ok := vc.factSyms[i]; ok {
+		return s
+	}
+	seen := map[string]bool{}
+	var out []string
+	for _, m := range symRe.FindAllString(vc.facts[i], -1) {
+		if !seen[m] && !isHubSymbol(m) {
+			seen[m] = true
+			out = append(out, m)
+		}
+	}
+	vc.factSyms[i] = out
+	return out
+}
+
+// sliceFacts selects the facts in the cone of influence of the obligation (hub symbols such as the
+// allocation arrays, initial heaps and theory functions do not propagate relevance).
+func (vc *VC) sliceFacts(o *Obligation) []bool {
+	vc.mu.Lock()
+	defer vc.mu.Unlock()
+	rel := map[string]bool{}
+	for _, m := range symRe.FindAllString(o.PC+" "+o.Goal, -1) {
+		if !isHubSymbol(m) {
+			rel[m] = true
+		}
+	}
+	inc := make([]bool, o.NFact)
+	changed := true
+	for changed {
+		changed = false
+		for i := 0; i < o.NFact; i++ {
+			if inc[i] {
+				continue
+			}
+			syms := vc.factSymbols(i)
+			hit := len(syms) == 0 // facts over hub symbols only (theory axioms, alive definitions) are always kept
+			for _, s := range syms {
+				if rel[s] {
+					hit = true
+					break
+				}
+			}
+			if hit {
+				inc[i] = true
+				changed = true
+				for _, s := range syms {
+					rel[s] = true
+				}
+			}
+		}
+	}
+	return inc
+}
+
 // Script renders the SMT-LIB2 script of an obligation.
 func (vc *VC) Script(o *Obligation, withModel bool) string {
+	return vc.ScriptOpt(o, withModel, false)
+}
+
+func (vc *VC) ScriptOpt(o *Obligation, withModel, sliced bool) string {
+	var inc []bool
+	if sliced {
+		inc = vc.sliceFacts(o)
+	}
 	var b strings.Builder
 	if withModel {
 		b.WriteString("(set-option :produce-models true)\n")
@@ -240,7 +334,15 @@ func (vc *VC) Script(o *Obligation, withModel bool) string {
 		b.WriteString(d)
 		b.WriteByte('\n')
 	}
-	for _, f := range vc.facts[:o.NFact] {
+	seenFact := map[string]bool{}
+	for fi, f := range vc.facts[:o.NFact] {
+		if inc != nil && !inc[fi] {
+			continue
+		}
+		if seenFact[f] {
+			continue
+		}
+		seenFact[f] = true
 		if o.Cover && (strings.Contains(f, "(forall ") || strings.Contains(f, "(exists ")) {
 			// reachability queries are posed over the quantifier-free part (DESIGN 2.9)
 			continue
@@ -292,6 +394,11 @@ func (vc *VC) initialHeap(b *heapBase, class string) T {
 	}
 	if b.alts == nil {
 		name := fmt.Sprintf("H%d_%s", b.epoch, smtName(class))
+		if _, seen := vc.declSet[name]; !seen && b.epoch == 0 && strings.HasPrefix(class, "G|") && sort == SortArr(SortRef, SortFSet) {
+			// ghost sets only ever receive references of existing objects (store hooks on those objects): A-GHOST
+			vc.declare(name, sort)
+			vc.facts = append(vc.facts, "(assert (forall ((r (_ BitVec 64)) (x (_ BitVec 64))) (! (=> (select (select "+name+" r) x) (select alive0 x)) :pattern ((select (select "+name+" r) x)))))")
+		}
 		vc.declare(name, sort)
 		t = name
 	} else {
@@ -496,7 +603,7 @@ func (vc *VC) subRef(st types.Type, fname string, ref T) T {
 		// tag differs per (struct, field)
 		tagT := BVBig(hashBig(fn), 64)
 		_ = tag
-		vc.facts = append(vc.facts, "(assert (and (= "+app(inv, t)+" "+ref+") (= (gv_subtag "+t+") "+tagT+") (=> (not (= "+ref+" "+BV(0, 64)+")) (not (= "+t+" "+BV(0, 64)+")))))")
+		vc.facts = append(vc.facts, "(assert (and (= "+app(inv, t)+" "+ref+") (= (gv_subtag "+t+") "+tagT+") (=> (not (= "+ref+" "+BV(0, 64)+")) (not (= "+t+" "+BV(0, 64)+"))) (=> (select alive0 "+ref+") (select alive0 "+t+"))))")
 	}
 	return t
 }
